@@ -133,3 +133,24 @@ def c06_pairing(case):
     return dict(reproduced=got != want, expected=want, got=got)
 
 
+
+
+@reg('C06.cache0')
+def cache0(case):
+    """fresh interpreter: every rule served from the cache content present at import must satisfy the moment identities"""
+    from fractions import Fraction as Fr
+    import numdifftools.finite_difference as fd
+    bad = []
+    for key, val in list(fd.FD_RULES.items()):
+        M = np.asarray(fd.LogRule._fd_matrix(*key), dtype=float)
+        E = np.asarray(val, dtype=float)
+        want = fd.linalg.pinv(M)
+        T = E.shape[0]
+        worst = max(abs(float(sum(Fr(float(E[i, k])) * Fr(float(M[k, j])) for k in range(T)) - (1 if i == j else 0)))
+                    for i in range(T) for j in range(T))
+        worst_c = max(abs(float(sum(Fr(float(want[i, k])) * Fr(float(M[k, j])) for k in range(T)) - (1 if i == j else 0)))
+                      for i in range(T) for j in range(T))
+        if worst > 1e-11 + 100 * worst_c:
+            bad.append(dict(key=repr(key), max_abs_of_E_M_minus_I=worst, same_for_computed_inverse=worst_c))
+    return dict(reproduced=bool(bad), failing=bad[:4], entries_at_import=len(fd.FD_RULES),
+                statement='rules served from FD_RULES as populated at import invert their moment matrix')
